@@ -1,6 +1,6 @@
 (** C02 (4) render_total: for a line range with 1 <= First <= Last <= number of lines the JSON line expansion returns
-    (no makeslice panic) exactly First..Last, all inside the file, and the console prints every one of those lines
-    (the out-of-file guard of f44c1ab drops nothing); the expansion panics iff Last < First - 1. *)
+    exactly First..Last, all inside the file, and the console prints every one of those lines (the out-of-file guard of
+    f44c1ab drops nothing); since 5f804fb the expansion is total (an inverted range yields [First]). *)
 From Coq Require Import List ZArith Lia String Bool.
 From PintV Require Import Model.Routing Model.Render.
 Import ListNotations.
@@ -17,21 +17,23 @@ Proof.
 Qed.
 
 Theorem expand_ok first last :
-  first <= last + 1 ->
+  first <= last ->
   exists l, expand first last = Ok l /\ Z.of_nat (List.length l) = last - first + 1 /\
             forall x, In x l <-> first <= x <= last.
 Proof.
-  intros H. unfold expand. destruct (last - first + 1 <? 0) eqn:E; [apply Z.ltb_lt in E; lia|].
+  intros H. unfold expand. destruct (last <? first) eqn:E; [apply Z.ltb_lt in E; lia|].
   eexists. split; [reflexivity|]. split; [rewrite zrange_length; lia|].
   intros x. rewrite zrange_In. lia.
 Qed.
 
-Theorem expand_crash_iff first last :
-  (exists w, expand first last = Crash w) <-> last < first - 1.
+(** Since fix 5f804fb the expansion is total: EVERY range, inverted or not, expands without a makeslice panic; an
+    inverted range is rendered as its first line. *)
+Theorem expand_total first last :
+  exists l, expand first last = Ok l /\ (last < first -> l = [first]).
 Proof.
-  unfold expand. destruct (last - first + 1 <? 0) eqn:E.
-  - apply Z.ltb_lt in E. split; [lia|]. intros _. eexists. reflexivity.
-  - apply Z.ltb_ge in E. split; [intros (w & X); discriminate|lia].
+  unfold expand. destruct (last <? first) eqn:E.
+  - exists [first]. split; [reflexivity|auto].
+  - apply Z.ltb_ge in E. eexists. split; [reflexivity|]. lia.
 Qed.
 
 Theorem console_plain_all nlines first last :
@@ -60,7 +62,7 @@ Proof. unfold zrange. cbn [seq map]. f_equal. lia. Qed.
 
 Theorem expand_singleton a : expand a a = Ok [a].
 Proof.
-  unfold expand. replace (a - a + 1) with 1 by lia. cbn [Z.ltb Z.compare]. change (Z.to_nat 1) with 1%nat.
+  unfold expand. rewrite Z.ltb_irrefl. replace (a - a + 1) with 1 by lia. change (Z.to_nat 1) with 1%nat.
   now rewrite zrange_one.
 Qed.
 
